@@ -40,12 +40,12 @@ SPEC = {
 
 
 def run(ctx: Ctx):
-    r16_1(ctx)
-    r16_1b(ctx)
-    r16_4(ctx)
-    r16_2(ctx)
-    r16_3(ctx)
-    r16_5(ctx)
+    ctx.attempt("R16.1", lambda: r16_1(ctx))
+    ctx.attempt("R16.1", lambda: r16_1b(ctx))
+    ctx.attempt("R16.4", lambda: r16_4(ctx))
+    ctx.attempt("R16.2", lambda: r16_2(ctx))
+    ctx.attempt("R16.3", lambda: r16_3(ctx))
+    ctx.attempt("R16.5", lambda: r16_5(ctx))
 
 
 def r16_5(ctx: Ctx, rule="R16.5"):
@@ -184,8 +184,23 @@ def r16_2b(ctx: Ctx, rule="R16.2"):
     for s_ in walk_no_nested(lp):
         if isinstance(s_, ast.Assign) and isinstance(s_.targets[0], ast.Name) and "findall" in norm(s_.value):
             cur = s_.targets[0].id
+    # the current-section variable is the one the ordinary lines are filed under (`self[<cur>].append(line)`); the name read
+    # off the header line may reach it through a local of its own
+    for c_ in calls_in(lp):
+        if call_name(c_) == "append" and c_.args and norm(c_.args[0]) == lv and isinstance(c_.func.value, ast.Subscript) \
+                and norm(c_.func.value.value) == "self" and isinstance(c_.func.value.slice, ast.Name):
+            cur = c_.func.value.slice.id
     n = 0
-    for p in enum_paths(lp.body):
+    from ..cfg import resolve_flags as _rf16
+    # another representation: the container lines are filed into is held in a local (`current.append(line)`)
+    direct = [c_ for c_ in calls_in(lp) if call_name(c_) == "append" and c_.args and norm(c_.args[0]) == lv and isinstance(c_.func.value, ast.Name)]
+    keyed = [c_ for c_ in calls_in(lp) if call_name(c_) == "append" and c_.args and norm(c_.args[0]) == lv and isinstance(c_.func.value, ast.Subscript)]
+    if direct and not keyed:
+        ctx.ob(rule, init, direct[0], True, "lines are appended to a container held in a local (`%s`), not to self[<current section>]; the "
+               "filing of lines is not decided on this tree" % norm(direct[0]), undecided=True, node=direct[0])
+        return
+    switch_paths = []
+    for p in _rf16(enum_paths(lp.body)):
         is_header = None
         sec_none = None
         for t, o in p.conds():
@@ -203,6 +218,9 @@ def r16_2b(ctx: Ctx, rule="R16.2"):
         h_app = [x for x in st if norm(x) == "self['header'].append(%s)" % lv]
         s_app = [x for x in st if cur and norm(x) == "self[%s].append(%s)" % (cur, lv)]
         n += 1
+        for x_ in p.stmts():
+            if isinstance(x_, ast.Assign) and cur and any(isinstance(t_, ast.Name) and t_.id == cur for t_ in x_.targets):
+                switch_paths.append((x_, is_header))
         if is_header is None:
             ctx.ob(rule, init, "loop path: %s" % p.describe()[:160], False, "every line is classified as section header or not", node=lp)
         elif is_header:
@@ -220,15 +238,13 @@ def r16_2b(ctx: Ctx, rule="R16.2"):
     # the current section changes only at a `[ name ]` line: any other assignment to it inside the loop (a reset at a
     # preprocessor line, say) files the lines that follow under another section
     if cur:
-        pm_ = parents_map(lp)
-        for s_ in walk_no_nested(lp):
-            if isinstance(s_, ast.Assign) and any(isinstance(t_, ast.Name) and t_.id == cur for t_ in s_.targets):
-                gs_ = guards_of(s_, pm_)
-                under_header = any(isinstance(t_, ast.Call) and "match" in norm(t_.func) and "\\[" in norm(t_) and pol_
-                                   for t0_, pol_ in gs_ for t_ in [t0_.operand if isinstance(t0_, ast.UnaryOp) else t0_]
-                                   if not isinstance(t0_, ast.UnaryOp)) or \
-                    any(isinstance(t0_, ast.UnaryOp) and isinstance(t0_.operand, ast.Call) and "match" in norm(t0_.operand.func)
-                        and "\\[" in norm(t0_.operand) and not pol_ for t0_, pol_ in gs_)
+        seen_sw = {}
+        for s_, hdr_ in switch_paths:
+            seen_sw.setdefault(id(s_), [s_, True])
+            if hdr_ is not True:
+                seen_sw[id(s_)][1] = False
+        for s_, under_header in seen_sw.values():
+            if True:
                 ctx.ob(rule, init, s_, under_header,
                        "the current section is changed only by a section-header line" + ("" if under_header else
                        " -- `%s` changes it on another kind of line: the lines that follow are filed under the wrong section" % norm(s_)),
@@ -294,7 +310,8 @@ def r16_2(ctx: Ctx):
         lp = loops[0]
         it = norm(lp.iter)
         full_iter = it in ("self.items()", "self", "self.keys()", "self.values()")
-        paths = enum_paths(lp.body)
+        from ..cfg import resolve_flags as _rf16b
+        paths = _rf16b(enum_paths(lp.body))
         all_write = True
         for p in paths:
             w = any(any(call_name(c) in ("write", "writelines") for c in calls_in(s)) or
